@@ -203,7 +203,8 @@ impl InferShapes for Where {
                 .zip(xs.zip(ys))
                 .map(|(cond, (x, y))| {
                     let cond_bool = match cond {
-                        SymExpr::Value(v) => Some(*v == 1),
+                        // The `Where` kernel treats every non-zero element as true.
+                        SymExpr::Value(v) => Some(*v != 0),
                         SymExpr::Var(_)
                         | SymExpr::Neg(_)
                         | SymExpr::Add(..)
@@ -222,7 +223,15 @@ impl InferShapes for Where {
                     }
                 })
                 .collect();
-            if let Some(vals) = vals {
+            if let Some(mut vals) = vals {
+                // Three scalars produce a scalar, anything else a vector.
+                if cond.as_scalar().is_some()
+                    && x.as_scalar().is_some()
+                    && y.as_scalar().is_some()
+                    && vals.len() == 1
+                {
+                    return Ok([SymTensor::from_scalar(vals.remove(0))].into());
+                }
                 return Ok([SymTensor::from_vec(vals)].into());
             }
         }
